@@ -166,27 +166,55 @@ func violate(rv reflect.Value, e *TypeEntry, r *core.Rand) (string, bool) {
 			}
 		}
 	}
-	// nil element inside a container of pointers
+	// nil element inside a container: pointers, nested containers and binaries
+	// as list/set elements, map values, and the Key/Value of the pair slices
+	// generated for maps with unhashable keys
+	nilable := func(t reflect.Type) bool {
+		switch t.Kind() {
+		case reflect.Ptr, reflect.Map, reflect.Slice:
+			return true
+		}
+		return false
+	}
+	isPair := func(t reflect.Type) bool {
+		return t.Kind() == reflect.Struct && t.NumField() == 2 && t.Field(0).Name == "Key" && t.Field(1).Name == "Value"
+	}
 	var ptrContainers []int
 	for k := range d.Fields {
 		f := sv.Field(k)
-		if f.Kind() == reflect.Slice && f.Type().Elem().Kind() == reflect.Ptr && f.Len() > 0 {
-			ptrContainers = append(ptrContainers, k)
+		if f.Kind() == reflect.Ptr || (f.Kind() != reflect.Slice && f.Kind() != reflect.Map) || f.Len() == 0 {
+			continue
 		}
-		if f.Kind() == reflect.Map && f.Type().Elem().Kind() == reflect.Ptr && f.Len() > 0 {
+		et := f.Type().Elem()
+		if f.Kind() == reflect.Slice && f.Type().Elem().Kind() == reflect.Uint8 {
+			continue // binary
+		}
+		if nilable(et) || (isPair(et) && (nilable(et.Field(0).Type) || nilable(et.Field(1).Type))) {
 			ptrContainers = append(ptrContainers, k)
 		}
 	}
 	if len(ptrContainers) > 0 && (len(cands) == 0 || r.Bool()) {
 		k := ptrContainers[r.Intn(len(ptrContainers))]
 		f := sv.Field(k)
+		what := "nil element"
 		if f.Kind() == reflect.Slice {
-			f.Index(r.Intn(f.Len())).Set(reflect.Zero(f.Type().Elem()))
+			el := f.Index(r.Intn(f.Len()))
+			if isPair(el.Type()) {
+				side := 1
+				if !nilable(el.Field(1).Type()) || (nilable(el.Field(0).Type()) && r.Bool()) {
+					side = 0
+				}
+				el.Field(side).Set(reflect.Zero(el.Field(side).Type()))
+				what = []string{"nil key", "nil value"}[side] + " in a map with unhashable keys"
+			} else {
+				el.Set(reflect.Zero(el.Type()))
+			}
 		} else {
-			key := f.MapKeys()[0]
+			key := f.MapKeys()[r.Intn(f.Len())]
 			f.SetMapIndex(key, reflect.Zero(f.Type().Elem()))
+			what = "nil map value"
 		}
-		return "nil element inside container field " + d.Fields[k].Name, true
+		return what + " inside container field " + d.Fields[k].Name, true
 	}
 	if len(cands) > 0 {
 		k := cands[r.Intn(len(cands))]
